@@ -32,12 +32,14 @@ Definition read_octet_dot (s : str) : option (N * str) :=
   | None => None
   end.
 
+Fixpoint p256 (w : nat) : N := match w with O => 1 | S w' => 256 * p256 w' end.
+
 (* w octets are still to be read, acc is the value of those read so far; result [lo, hi) *)
 Fixpoint prange4 (w : nat) (acc : N) (s : str) : option (N * N) :=
   match w with
   | O => None
   | S w' =>
-    if str_eqb s [c_star] then Some (acc * 256 ^ N.of_nat w, (acc + 1) * 256 ^ N.of_nat w)
+    if str_eqb s [c_star] then Some (acc * p256 w, (acc + 1) * p256 w)
     else match w' with
          | O => match find (fun ot => str_eqb (snd ot) s) octet_table with
                 | Some (o, _) => Some (acc * 256 + o, acc * 256 + o + 1)
